@@ -85,7 +85,16 @@ def check(ctx):
             rc, out = run(sfw, ["index", "--name", "mal", "--db", d, os.path.join(tree, "p0", "f0.go")], tree, 4)
             if rc != 0:
                 raise vlib.Inconclusive("sfw index failed: " + out[-500:])
+        # a JSON database of several hundred signatures in which the same routines occur under many names
+        # (equal confidences everywhere): `check --scan` prints the alerts in the order the store returns them
+        bigj = os.path.join(ctx.scratch, "big%d.json" % t)
+        for k in range(36 if thorough else 30):
+            rc, out = run(sfw, ["index", "--name", "fam%02d" % k, "--db", bigj, os.path.join(tree, "p%d" % (k % 2), "f%d.go" % (k % 2))], tree, 4)
+            if rc != 0:
+                raise vlib.Inconclusive("sfw index (big json) failed: " + out[-300:])
         kinds = [("check", ["check", "--no-sandbox", tree]),
+                 ("check-scan-bigjson", ["check", "--scan", "--no-sandbox", "--db", bigj, os.path.join(tree, "p0", "f0.go")]),
+                 ("check-scan-bigjson-p1", ["check", "--scan", "--no-sandbox", "--db", bigj, os.path.join(tree, "p1")]),
                  ("check-strict", ["check", "--strict", "--no-sandbox", tree]),
                  ("scan-pebble", ["scan", "--no-sandbox", "--threshold", "0.5", "--db", db, tree]),
                  ("scan-json", ["scan", "--no-sandbox", "--threshold", "0.5", "--db", jdb, tree]),
